@@ -34,10 +34,10 @@ func (e StdEng) argmaxDenseTensor(t DenseTensor, axis int) (retVal *Dense, err e
 		} else {
 			// the flat kernel reads the storage as it lies: a transposed or sliced
 			// tensor has to be brought into its logical order first
-			if t.RequiresIterator() {
+			if t.RequiresIterator() || t.DataOrder().IsColMajor() {
 				v, ok := t.(View)
 				if !ok || !v.IsMaterializable() {
-					return nil, errors.Errorf("Argmax over all axes does not support non-contiguous tensors that cannot be materialized")
+					return nil, errors.Errorf("Argmax over all axes does not support column-major tensors, or non-contiguous ones that cannot be materialized")
 				}
 				if t, ok = v.Materialize().(DenseTensor); !ok {
 					return nil, errors.Errorf("Argmax: unable to materialize %T", v)
@@ -133,10 +133,10 @@ func (e StdEng) argminDenseTensor(t DenseTensor, axis int) (retVal *Dense, err e
 		} else {
 			// the flat kernel reads the storage as it lies: a transposed or sliced
 			// tensor has to be brought into its logical order first
-			if t.RequiresIterator() {
+			if t.RequiresIterator() || t.DataOrder().IsColMajor() {
 				v, ok := t.(View)
 				if !ok || !v.IsMaterializable() {
-					return nil, errors.Errorf("Argmin over all axes does not support non-contiguous tensors that cannot be materialized")
+					return nil, errors.Errorf("Argmin over all axes does not support column-major tensors, or non-contiguous ones that cannot be materialized")
 				}
 				if t, ok = v.Materialize().(DenseTensor); !ok {
 					return nil, errors.Errorf("Argmin: unable to materialize %T", v)
